@@ -443,6 +443,12 @@ class BaseReferenceColumn(BaseColumn):
     if self._target_table:
       self._target_table._back_references.remove(self)
 
+  def clear(self):
+    # The cells are dropped (Engine.load_table, i.e. also every ReplaceTableData): forget their
+    # references too, or the relation keeps reporting rows whose cells no longer point at the target.
+    super(BaseReferenceColumn, self).clear()
+    self._relation.clear()
+
   def _update_references(self, row_id, old_value, new_value):
     for r in self._value_iterable(old_value):
       self._relation.remove_reference(row_id, r)
